@@ -19,6 +19,8 @@ for d in $(ls -d "$HERE"/seeded/*/ | xargs -n1 basename); do
     C01-r3-1) extra="C07";; C02-r3-1|C02-r3-2) extra="C01";; C03-r3-1) extra="C09";; C10-r3-2) extra="C02";; C05-r3-1) extra="C11";;
     C07-r3-1) extra="C06";; C07-r3-2) extra="C09";; C09-r3-1) extra="C08";; C12-r3-2) extra="C14";; C14-r3-2) extra="C12";; C17-r3-2) extra="C10";;
     C18-r3-2) extra="C06";; C08-r3-2) extra="C03";; C11-r3-1|C11-r3-2) extra="C10";;
+    C06-r4-2) extra="C08";; C09-r4-1|C09-r4-2) extra="C08";; C10-r4-1) extra="C11";; C02-r4-1) extra="C03";; C13-r4-2) extra="C12";;
+    C06-r4-1) extra="C18";; C11-r4-2) extra="C05";; C05-r4-2) extra="C11";;
   esac
   echo "$d $id $extra" >> "$OUT.jobs"
 done
